@@ -1,6 +1,8 @@
 package marching
 
 import (
+	"math"
+
 	"github.com/EliCDavis/polyform/math/geometry"
 	"github.com/EliCDavis/polyform/math/sample"
 	"github.com/EliCDavis/polyform/math/sdf"
@@ -9,7 +11,9 @@ import (
 )
 
 func Sphere(pos vector3.Float64, radius, strength float64) Field {
-	domainRadius := strength * radius * 2
+	// the domain has to contain the sphere also when the strength (a factor on the distance values)
+	// is below one
+	domainRadius := math.Max(strength, 1) * radius * 2
 	return Field{
 		Domain: geometry.NewAABB(
 			pos,
